@@ -5,7 +5,7 @@ ALLCFG = [1, 2, 3, 4, 5, 6, 7]
 PLANS = {
     'C01': dict(
         oracle='C01', level='exploration',
-        profiles=[('core', 2), ('hier', 3)], curated=[], configs=ALLCFG,
+        profiles=[('core', 2), ('hier', 2), ('hier_sparse', 2)], curated=[], configs=ALLCFG,
         cp=dict(max_ops=25, kinds=['P']), examples=(300, 3000), floor=(200, 2000),
         rule='Hypothesis-generated event histories with per-step guard valuations on generated machines (core/hier profiles: '
              '1-3 regions, depth<=3, conflicting rows, state- and machine-internal tables); oracle: per (machine,region) ordered '
@@ -39,7 +39,7 @@ PLANS = {
     ),
     'C07': dict(
         oracle='C07', level='exploration',
-        profiles=[('hier', 6)], curated=[], configs=ALLCFG,
+        profiles=[('hier', 4), ('hier_sparse', 2)], curated=[], configs=ALLCFG,
         cp=dict(max_ops=25, kinds=['P', 'P', 'P', 'P', 'T'], final_stop=True), examples=(400, 3000), floor=(100, 1000),
         rule='Generated histories on machines of depth 2-3; oracle: per root region the sequence of (behaviour kind, nesting '
              'level) equals the model (inner levels consulted first, single consumption, cascades by level) and no behaviour of '
@@ -70,7 +70,7 @@ PLANS = {
     'C10': dict(
         oracle='C10', level='exploration',
         profiles=[('completion', 3), ('completion_defer', 2), ('completion_sub', 2)], curated=[], configs=ALLCFG,
-        cp=dict(max_ops=30, kinds=['P', 'P', 'P', 'P', 'Q', 'Q', 'X', 'T']), examples=(400, 3000), floor=(100, 1000),
+        cp=dict(max_ops=30, kinds=['P', 'P', 'P', 'P', 'Q', 'Q', 'X', 'T'], no_restart_with_deferral=True), examples=(400, 3000), floor=(100, 1000),
         rule='Generated histories (process_event, enqueue_event, execute queued all/single, stop/start) on machines with completion '
              'rows (chains, conflicts, guards frozen per entry of the source); oracle: per (machine,region) completion behaviours == '
              'model, order of completion work relative to other occurrences == model, no no_transition for completion events, and '
@@ -169,7 +169,7 @@ PLANS = {
     ),
     'C12': dict(
         oracle='C12', level='fault_enumeration', mode='fault_enum', keep_cases=6, post='c12_uninit',
-        profiles=[('throw', 5)], curated=[], configs=ALLCFG,
+        profiles=[('throw', 3), ('throw_after_action', 1), ('throw_after_exit', 1), ('throw_before', 1)], curated=[], configs=ALLCFG,
         cp=dict(kinds=['P', 'P', 'P', 'Q', 'X'], scripts={'p': ['r', 'Q']}, cont_scripts={'p': ['r', 'Q'], 't': True}, max_prefix=8, max_cont=5),
         examples=(60, 500), floor=(150, 1500),
         rule='Fault enumeration: for each generated (machine, prefix history, step) the step is first run fault-free to count its '
